@@ -204,7 +204,14 @@ func condDiscipline(c *core.Ctx, r *core.Report) {
 					onOwnRecv = true
 				}
 			}
-			if at.outer != nil && !onOwnRecv {
+			// … or the pool reaches into the wrapper's field directly (p.outer.inner.Op(…)): a write at this very place
+			directViaOuter := false
+			if fa, ok := op.Call.Common().Args[0].(*ssa.FieldAddr); ok && at.outer != nil {
+				if ofa, isFA := fa.X.(*ssa.FieldAddr); isFA && an.SameField(an.FieldOfAddr(ofa), at.outer) {
+					directViaOuter = true
+				}
+			}
+			if at.outer != nil && !onOwnRecv && !directViaOuter {
 				continue
 			}
 			viaOuter := func(cs ssa.CallInstruction) bool {
